@@ -1,0 +1,62 @@
+//go:build verif
+
+// Machine-checked contracts for package cache (comment-only file; compiled only
+// under the build tag "verif", contains no code). Consumed by /verif/govc.
+package cache
+
+// the user's fingerprint function: deterministic within one lookup
+//@ func type:PkgHash
+//@ pure
+
+//@ func parseExport
+//@ prop C20
+//@ readonly
+//@ ensures imp(result1 == nil, result0.path != "" || true)
+//@ ensures result1 == nil || result1 == errInvalidFormat
+
+//@ func isDirty
+//@ prop C20
+//@ requires typeis(val, *pkgCache) && h != nil && pf != nil
+//@ requires val.(*pkgCache) != nil
+//@ loop 0 invariant forall(j, 0, rangeidx + 1, h(val.(*pkgCache).deps[j].path, false) == val.(*pkgCache).deps[j].hash)
+//@ assigns *pf
+//@ ensures imp(!result, val.(*pkgCache).hash != HashInvalid && h(pkgPath, true) == val.(*pkgCache).hash)
+//@ ensures imp(!result, forall(j, 0, len(val.(*pkgCache).deps), h(val.(*pkgCache).deps[j].path, false) == val.(*pkgCache).deps[j].hash))
+//@ ensures imp(!result, pf != nil && *pf != nil)
+//@ ensures imp(result, *pf == old(*pf) || *pf == nil)
+//@ ensures imp(result && val.(*pkgCache).hash != HashInvalid && EntryFresh(h, val.(*pkgCache), pkgPath), *pf == nil)
+//@ ensures imp(val.(*pkgCache).hash == HashInvalid || h(pkgPath, true) != val.(*pkgCache).hash, result)
+
+//@ func parseExports
+//@ prop C20
+//@ readonly
+//@ ensures result1 == nil || result1 == errInvalidFormat
+//@ ensures imp(result1 != nil, result0 == nil)
+
+//@ func (*Impl).loadCachePkgs
+//@ prop C20 C17
+//@ loop 0 invariant true
+//@ loop 1 invariant 1 <= i
+//@ ensures result == nil || result == errInvalidFormat
+
+//@ func golistExport
+//@ trusted
+//@ readonly
+//@ ensures imp(result1 != nil, result0 == nil)
+//@ ensures imp(result1 == nil, forall(j, 0, len(pkgPath), exists(i, 0, len(result0), result0[i].path == pkgPath[j])))
+
+//@ func (*Impl).Prepare
+//@ prop C20
+//@ requires p.h != nil && CacheWf(p)
+//@ assigns heapexcept(io.ReadCloser; []string)
+//@ loop 0 invariant h == p.h && CacheWf(p) && forall(k2, 0, rangeidx + 1, Recorded(p, ret[k2].path))
+//@ loop 1 invariant pkg != nil && pkg.hash == h(v.path, true) && forall(d, 0, len(pkg.deps), h(pkg.deps[d].path, false) == pkg.deps[d].hash) && fresh(pkg)
+//@ ensures p.nlist == old(p.nlist) + 1 && p.h == old(p.h)
+//@ ensures imp(result != nil, gsame(syncmap, addr(p.cache)))
+//@ ensures CacheWf(p)
+//@ ensures imp(result == nil, forall(j, 0, len(pkgPath), Recorded(p, pkgPath[j])))
+
+//@ func (*Impl).Find
+//@ prop C20
+//@ requires p.h != nil && CacheWf(p) && os.ErrNotExist != nil
+//@ ensures imp(result0 != nil && result1 == nil, Recorded(p, pkgPath))
